@@ -123,6 +123,38 @@ def dup_first_ext(f, v, t=0):
     return None
 
 
+def set_first_ext_list(f, v, make, t=0):
+    """v with the items of its first repetition of tagged items replaced by make(item format)"""
+    k = f[0]
+    if k == 'p':
+        a = set_first_ext_list(f[1], v[1], make, t)
+        if a is not None:
+            return V.P(a, v[2])
+        b = set_first_ext_list(f[2], v[2], make, t)
+        return None if b is None else V.P(v[1], b)
+    if k == 'L':
+        return set_first_ext_list(f[2], v, make, t)
+    if k == 'O':
+        if v[0] != 'S':
+            return None
+        x = set_first_ext_list(f[1], v[1], make, t)
+        return None if x is None else V.S(x)
+    if k == 'M':
+        if f[1][0] == 'T':
+            return V.L(make(f[1]))
+        for i, x in enumerate(v[1]):
+            y = set_first_ext_list(f[1], x, make, t)
+            if y is not None:
+                return V.L(list(v[1][:i]) + [y] + list(v[1][i + 1:]))
+        return None
+    if k == 'T':
+        x = set_first_ext_list(f[2], v[2], make, v[1][1])
+        return None if x is None else V.P(v[1], x)
+    if k == 'C':
+        return set_first_ext_list(V.select(f, t), v, make, t)
+    return None
+
+
 def real_parse(ent, data):
     try:
         with time_limit():
@@ -443,6 +475,22 @@ def values_for(run, ent, tree):
             yield "valid", wf(g.gen(tree, mode))
     for _ in range(nrand):
         yield "valid", wf(g.gen(tree, "rand"))
+    # extension blocks mixing several extensions the library has no class for (stored generically, with
+    # different payloads) with ones it has classes for, in every order
+    def mixed(tf):
+        keys, dflt = V.case_keys(tf[2])
+        known = [k for k, ff in keys if ff[0] != 'X' and k not in g.avoid_tags]
+        unknown = [x for x in (42, 0x1a1a, 0xfafa, 0x1234, 49) if x not in [k for k, _ in keys]]
+        items = [V.P(V.N(u), V.B(g.rb(i))) for i, u in enumerate(rng.sample(unknown, rng.randint(2, 4)))]
+        items += [g.gen_tagged(tf, k, "rand") for k in rng.sample(known, min(len(known), rng.randint(0, 2)))]
+        rng.shuffle(items)
+        return items
+    for _ in range(ctx.pick(3, 12)):
+        base = wf(g.gen(tree, "one"))
+        mv = set_first_ext_list(tree, base, mixed)
+        if mv is None:
+            break
+        yield ("valid" if _all_fit(tree, mv) else "oversize"), mv
     # boundaries of every length field: body of exactly cap bytes (fits) and cap+1 (must raise)
     paths = V.lenpref_paths(tree)
     if not ctx.thorough() and len(paths) > 4:
@@ -1092,6 +1140,126 @@ def create_streams(r):
                   expect, {"ske": [kind, list(ver), [hex(x) for x in ints], curve, bytes(point).hex(), bytes(salt).hex()]})
 
 
+class reuse_object(object):
+    """while active, every public create*() of `type(obj)` acts on `obj` whatever instance it is called
+    on, so that the builders (which call `Cls().create(...)` on a new instance) apply create() to an
+    object that is already in use; nothing else of the class is touched"""
+
+    def __init__(self, obj):
+        self.obj = obj
+        self.cls = type(obj)
+        self.saved = {}
+
+    def __enter__(self):
+        cls, obj = self.cls, self.obj
+        for name in dir(cls):
+            if not name.startswith("create"):
+                continue
+            orig = getattr(cls, name)
+            if not callable(orig):
+                continue
+            self.saved[name] = cls.__dict__.get(name, None)
+
+            def wrapper(self_, *a, _orig=orig, **k):
+                return _orig(obj, *a, **k)
+            setattr(cls, name, wrapper)
+        return self
+
+    def __exit__(self, *a):
+        for name, old in self.saved.items():
+            if old is None:
+                delattr(self.cls, name)
+            else:
+                setattr(self.cls, name, old)
+        return False
+
+
+def reuse_streams(r):
+    """no state may survive from an earlier use of the same object: parse(A) then create(B), create(A) then
+    create(B), parse(A) then parse(B) on ONE object must write / hold exactly what a fresh object gives
+    for B.  A and B come from the format's generator with different widths, lengths and optional
+    fields present."""
+    ctx = r.ctx
+    rng = ctx.rng
+    g = r.gen
+
+    def viol(ent, sub, what, rep):
+        ctx.violation("c15:%s:%s" % (ent.cls, sub), "%s: %s" % (ent.cls, what),
+                      dict(rep, **{"format": ent.name, "class": ent.cls, "defect": sub, "stage": "reuse"}))
+
+    for name in format_order(r):
+        ent = r.ents[name]
+        tree = r.trees.get(name)
+        if ent.new is None and not name.startswith("ext:"):
+            continue
+        if ent.custom_values is not None:
+            vals = [v for k, v in ent.custom_values(r) if k == "valid"]
+            vals = [v for v in vals if len(V.render(v)) < 5000][:8]
+        elif tree is not None:
+            vals = [ent.wellformed(g.gen(tree, m), rng) for m in ("min", "one", "max", "rand", "rand", "rand")]
+            vals = [v for v in vals if _all_fit(tree, v)]
+        else:
+            continue
+        if ent.create_wf is not None:
+            vals = [ent.create_wf(v) for v in vals]
+        builder = ent.build_create or ent.build
+        fresh = []
+        for v in vals:
+            try:
+                with time_limit():
+                    o = builder(v)
+                    fresh.append((v, None if o is None else ent.write(o)))
+            except Exception:  # noqa - value not expressible through create(): not part of this stream
+                fresh.append((v, None))
+        fresh = [(v, b) for v, b in fresh if b is not None]
+        if len(fresh) < 2:
+            continue
+        head = fresh[:4]                       # minimal, one-element, maximal, random: every ordered pair of them
+        pairs = [(a, b) for a in head for b in head if a is not b]
+        more = [(a, b) for a in fresh for b in fresh if a is not b and (a, b) not in pairs]
+        rng.shuffle(more)
+        for (va, ba), (vb, bb) in pairs + more[:ctx.pick(4, 30)]:
+            rep = {"A": V.render(va)[:2000], "B": V.render(vb)[:2000], "bytesA": ba.hex()[:4000], "bytesB": bb.hex()[:4000]}
+            ctx.count("reuse:" + name)
+            # 1. parse(A) then create(B) on the same object
+            for how in ("parse-create", "create-create"):
+                ctx.case(key=("reuse", how, name, ba, bb), sample=None)
+                try:
+                    with time_limit():
+                        if how == "parse-create":
+                            obj, _ = ent.parse(ba)
+                        else:
+                            obj = builder(va)
+                        with reuse_object(obj):
+                            o2 = builder(vb)
+                        if o2 is not obj:
+                            continue              # another class took over (different extension type): not a reuse
+                        got = ent.write(obj)
+                except Exception as e:  # noqa
+                    viol(ent, "reuse-%s-%s" % (how, type(e).__name__),
+                         "%s(A) then create(B) on the same object raised %s: %s" % (how.split("-")[0], type(e).__name__, e), rep)
+                    continue
+                if got != bb:
+                    viol(ent, "reuse-" + how, "%s(A) then create(B) on the same object writes %s, a fresh object writes %s: state "
+                         "of A survives in B" % (how.split("-")[0], got.hex()[:120], bb.hex()[:120]), dict(rep, got=got.hex()[:4000]))
+            # 2. parse(A) then parse(B) on the same object
+            ctx.case(key=("reuse", "parse-parse", name, ba, bb), sample=None)
+            try:
+                with time_limit():
+                    obj, _ = ent.parse(ba)
+                    if ent.parse_into(obj, bb) is None:
+                        continue
+                    val = ent.val(obj)
+                    got = ent.write(obj)
+            except Exception as e:  # noqa
+                viol(ent, "reuse-parse-parse-" + type(e).__name__, "parse(A) then parse(B) on the same object raised %s: %s"
+                     % (type(e).__name__, e), rep)
+                continue
+            if ent.norm(val) != ent.norm(vb) or (got != bb and not ent.lossy):
+                viol(ent, "reuse-parse-parse", "parse(A) then parse(B) on the same object holds %s / writes %s instead of B"
+                     % (V.render(val)[:160], got.hex()[:120]), dict(rep, got=got.hex()[:4000]))
+
+
 def real_asn1(r):
     """the certificate-carrying formats once more with the real ASN.1 parsers (no stubs): a real
     X.509 certificate and a real SubjectPublicKeyInfo from the repository's test data"""
@@ -1198,6 +1366,7 @@ def run(ctx):
             do_format(r, name)
         glue_and_legacy(r)
         create_streams(r)
+        reuse_streams(r)
     real_asn1(r)
     writer_prims(r)
     parser_prims(r)
@@ -1220,7 +1389,7 @@ def replay(ctx, rep):
         return bool(ctx.violations and any(v["key"] == rep.get("key") or not v["found"] for v in ctx.violations))
     r = Run(ctx)
     before = len(ctx.violations)
-    if inp.get("stage") in ("writer", "parser", "legacy", "create") or "format" not in inp:
+    if inp.get("stage") in ("writer", "parser", "legacy", "create", "reuse"):
         print("replay of stage %r: re-running that part of the check" % inp.get("stage"))
         with opaque_asn1():
             r.load_trees()
@@ -1230,6 +1399,8 @@ def replay(ctx, rep):
                 parser_prims(r)
             elif inp.get("stage") == "create":
                 create_streams(r)
+            elif inp.get("stage") == "reuse":
+                reuse_streams(r)
             else:
                 glue_and_legacy(r)
         return any(v["key"] == rep.get("key") for v in ctx.violations) or len(ctx.violations) > before
